@@ -429,7 +429,8 @@ Lemma sep_first_ok t g c r : sep g -> g = c :: r -> clash_char t c = false.
 Proof.
   intros H E.
   assert (F : is_word c = false /\ c <> 45 /\ c <> 46 /\ c <> 61 /\ c <> 42 /\ c <> 40 /\ lower c <> 115).
-  { destruct H as [|c' g' Hc _|body g' _ _|line g' _ _]; try discriminate; injection E as -> _.
+  { destruct H as [|c' g' Hc _|body g' _ _|line g' _ _]; try discriminate; injection E as E1 _;
+      (first [subst c' | subst c]).
     - unfold is_space in Hc. unfold is_word, is_alpha, is_digit, is_upper, is_lower, lower, is_upper.
       destruct ((65 <=? c) && (c <=? 90)) eqn:E; repeat split; lia.
     - vm_compute. repeat split; discriminate.
@@ -453,10 +454,10 @@ Proof.
   { destruct (first_class t) as [| |k] eqn:Ef; cbn [fc_ok] in Hc.
     - unfold is_alpha, is_upper, is_lower in Hc. unfold is_space. repeat split; try lia.
     - unfold is_digit in Hc. unfold is_space. repeat split; try lia.
-    - subst c. destruct t; cbn [first_class] in Ef; try discriminate; try (destruct lead); try (destruct dq);
+    - subst c. destruct t; cbn [first_class] in Ef; try (destruct lead); try (destruct dq); try discriminate;
         injection Ef as <-; repeat split; try reflexivity; try discriminate; try (intros; discriminate). }
   destruct F as (F1 & F2 & F3). repeat split; [exact F1|exact F2|].
-  intros E47. specialize (F3 E47). subst t. cbn [spell render_tok] in Hs. injection Hs as _ <-. cbn [app].
+  intros E47. specialize (F3 E47). subst t. cbn [spell render_tok] in Hs. injection Hs as _ ->. cbn [app].
   destruct rest as [|c2 r]; [exact I|]. simpl in Ha. lia.
 Qed.
 
@@ -472,7 +473,7 @@ Lemma lex_loop_ok : forall ts ss gs g0 acc fuel,
 Proof.
   induction ts as [|t ts IH]; intros ss gs g0 acc fuel HS Hok Hg Hgs Hf.
   - inversion HS; subst. cbn [weave] in *. rewrite app_nil_r in *. destruct fuel; [lia|]. cbn [lex_loop].
-    rewrite skip_sep_end; [reflexivity|exact Hg|lia].
+    rewrite skip_sep_end; [rewrite app_nil_r; reflexivity|exact Hg|lia].
   - inversion HS as [|t' s ts' ss' Hs HS']; subst. cbn [forallb] in Hok. apply andb_prop in Hok. destruct Hok as [Hokt Hok].
     destruct gs as [|g gs']; [destruct ts; contradiction|]. cbn [weave] in *.
     set (rest := g ++ weave ss' gs') in *.
@@ -483,7 +484,8 @@ Proof.
         destruct g as [|c r] eqn:E; [exact I|]. apply (sep_end_first_ok t (c :: r) c r Hgs eq_refl).
       - cbn [seps_ok] in Hgs. destruct Hgs as (Hsg & Hns & Hgs'). split; [exact Hsg|]. split; [exact Hgs'|].
         unfold rest. destruct g as [|c r] eqn:E.
-        + cbn [app]. inversion HS' as [|? s2 ? ss2 Hs2 HS2]; subst. cbn [weave].
+        + cbn [app]. inversion HS' as [|? s2 ? ss2 Hs2 HS2]; subst.
+          destruct gs' as [|g2 gs2]; [destruct ts2; contradiction|]. cbn [weave].
           cbn [forallb] in Hok. apply andb_prop in Hok. destruct Hok as [Hok2 _].
           destruct (spell_first t2 s2 Hok2 Hs2) as (c2 & s2' & -> & Hc2). cbn [app after_ok].
           apply (clash_sound t (first_class t2) c2); [apply Hns; reflexivity|exact Hc2].
